@@ -472,11 +472,45 @@ theorem allResLoc_sliceStep {n : Node} {c : Ctx} (hl : Loc d n c) (hw : n.WF) (l
   | map a es => exact allResLoc_real (allLoc_sliceOnMap hl hw.1 lo hi es (fun _ h => h))
   | set a ms => exact allResLoc_real (allLoc_sliceOnSet hl lo hi ms (fun _ h => h))
 
-theorem allLoc_anchorStep {n : Node} {c : Ctx} (hl : Loc d n c) (hw : n.WF) (a : Str) : AllLoc d (anchorStep a n c) := by
-  unfold anchorStep
-  split
-  · exact allLoc_nil
-  · exact allLoc_ofList (fun x hx => loc_deepKids hl hw x (List.mem_filter.mp hx).1)
+theorem loc_anchorGo {a : Option Str} {items : List Node} {c : Ctx} (hl : Loc d (.seq a items) c) (an : Str) :
+    ∀ (suf pre : List Node), items = pre ++ suf → ∀ x ∈ anchorKids.go an c suf pre.length, Loc d x.1 x.2 := by
+  intro suf
+  induction suf with
+  | nil => intro pre _ x hx; simp [anchorKids.go] at hx
+  | cons m ms ih =>
+    intro pre hpre x hx
+    simp only [anchorKids.go, List.mem_cons] at hx
+    cases hx with
+    | inl hx =>
+      subst hx
+      refine Loc.child _ _ _ m hl ?_ ?_
+      · simp [Node.child?, hpre]
+      · simp only [prefOk, inRange, normIdx, Bool.and_eq_true, decide_eq_true_eq]
+        subst hpre
+        simp only [List.length_append, List.length_cons]
+        refine ⟨⟨by omega, by omega⟩, ?_⟩
+        have : ¬ ((pre.length : Int) < 0) := by omega
+        simp [this]
+    | inr hx =>
+      have := ih (pre ++ [m]) (by simp [hpre]) x (by simpa using hx)
+      exact this
+
+theorem loc_anchorKids {n : Node} {c : Ctx} (hl : Loc d n c) (hw : n.WF) (an : Str) :
+    ∀ x ∈ anchorKids an n c, Loc d x.1 x.2 := by
+  cases n with
+  | scalar a v => intro x hx; simp [anchorKids] at hx
+  | set a ms => intro x hx; simp [anchorKids] at hx
+  | seq a items => exact loc_anchorGo hl an items [] rfl
+  | map a es =>
+    intro x hx
+    simp only [anchorKids, List.mem_map] at hx
+    obtain ⟨kv, hkv, rfl⟩ := hx
+    refine Loc.child _ _ _ kv.2 hl ?_ ?_
+    · simp [Node.child?, lookup_of_mem_nodup hw.1 kv hkv]
+    · simp [prefOk]
+
+theorem allLoc_anchorStep {n : Node} {c : Ctx} (hl : Loc d n c) (hw : n.WF) (a : Str) : AllLoc d (anchorStep a n c) :=
+  allLoc_ofList (fun x hx => loc_anchorKids hl hw a x (List.mem_filter.mp hx).1)
 
 variable {mt : Matcher} {dsc : Desc}
 
